@@ -127,12 +127,18 @@ Proof. exact drop_view. Qed.
 Print Assumptions C03_spsc_drop_walk_partial.
 
 (* (d) len() called by the consumer thread lies between the abstract lengths at its call and at its
-   return.  PARTIAL with respect to the property: len() from the producer thread or from a third
-   thread is not in the model (from a third thread the bound is false: both indices move). *)
-Theorem C03_spsc_len_between_call_and_return_partial :
+   return (only pushes can interleave) ... *)
+Theorem C03_spsc_len_between_call_and_return :
   forall B, 1 <= B -> forall s, Reach B s -> bad_len (F s) = false.
 Proof. exact len_between_call_and_return. Qed.
-Print Assumptions C03_spsc_len_between_call_and_return_partial.
+Print Assumptions C03_spsc_len_between_call_and_return.
+(* ... and called by the producer thread between the abstract lengths at its return and at its call
+   (only pops can interleave).  len() from a THIRD thread is outside the model (there both indices
+   move between the two loads and the result can exceed every abstract length of the interval). *)
+Theorem C03_spsc_producer_len_between_return_and_call :
+  forall B, 1 <= B -> forall s, Reach B s -> bad_lenp (F s) = false.
+Proof. exact producer_len_between_return_and_call. Qed.
+Print Assumptions C03_spsc_producer_len_between_return_and_call.
 
 (* all monitors together *)
 Theorem C03_spsc_monitors_never_trip :
@@ -168,7 +174,7 @@ Proof. vm_compute. repeat split. Qed.
 (* the recycling monitor is not constant: from a (non reachable) state in which `first` is the
    consumer's head block while alloc_node is about to hand it out, it trips *)
 Example C03_spsc_recycle_monitor_can_trip :
-  match step 2 {| M := M init; P := {| pp := PRec1; pv := 0; pnew := 0; plh := 0 |}; C := C init;
+  match step 2 {| M := M init; P := {| pp := PRec1; pv := 0; pnew := 0; plh := 0; plenh := 0; pres := 0 |}; C := C init;
                   Q := Q init; K := K init; F := F init |} PStep with
   | Some s => bad_recyc (F s) = true
   | None => False
